@@ -73,6 +73,19 @@ def resolver_checks(ctx, f, mode):
         else:
             why = 'the ParentDir test does not lead to a refusal'
     ctx.ob('C13.1', f, 'refuses-parent-dir', pd_ok, '`..` segments are %s' % ('refused before the Ok return' if pd_ok else 'NOT refused (%s)' % why))
+    # --- the value that is accepted is the value that was checked
+    from ..prov import sources
+    chk_leaves = set()
+    for a in f.calls(r'^std::path::Path::(is_absolute|components|has_root|strip_prefix)$'):
+        chk_leaves |= set(sources(f, a.args[0]))
+    oks = f.aggregates(r'^core::result::Result$', 'Ok')
+    for (bi, si, st) in oks:
+        leaves = set(sources(f, st['rv']['a'][0]))
+        # the root the result is joined onto: a parameter the checks did not have to inspect (self / root)
+        foreign = sorted((x for x in leaves if x not in chk_leaves and x[0] not in ('const',) and not (x[0] == 'param' and (f.lname(x[1]) in ('self', 'root') or x[1] == 1 and f.argc > 1))), key=str)
+        ctx.ob('C13.1', f, 'accepted-value-is-checked-value', not foreign,
+               'the Ok value is built from %s' % ('the inspected input (and the root) only' if not foreign else
+               'a value the `..` / absolute checks never saw (%s): the checks inspect one spelling of the path and a different, rewritten one is accepted' % ', '.join(x[1].rsplit('::', 1)[-1] if x[0] == 'call' else str(x) for x in foreign)), line=st.get('ln'))
     # --- absolute
     abss = f.calls(r'^std::path::Path::is_absolute$')
     if mode == 'strict':
@@ -104,9 +117,9 @@ def build_taint(P):
                 if fl['name'] in PATH_FIELD_NAMES and re.search(r'String|PathBuf', fl['ty']):
                     src_fields[(ap, fl['name'])] = '%s.%s' % (ap.rsplit('::', 1)[-1], fl['name'])
     cc = P.fn('rip_workspace::Workspace::create_checkpoint')
-    files_l = [i for i in range(1, cc.argc + 1) if cc.lname(i) == 'files']
-    if not files_l:
-        raise CheckError('C13.2: create_checkpoint has no `files` parameter')
+    files_l = [i for i in range(1, cc.argc + 1) if cc.lname(i) == 'files'] or [i for i in range(1, cc.argc + 1) if 'PathBuf' in cc.lty(i) or 'Path]' in cc.lty(i)]
+    if len(files_l) != 1:
+        raise CheckError('C13.2: create_checkpoint has no path-list parameter')
     T = Taint(P, lambda o, n: src_fields.get((o, n)), sanitizers=SANITIZERS,
               scope=lambda f: bool(re.search(SCOPE, f.path)) or f.path.startswith('<rip_') or f.path.startswith('<ripd::checkpoints') or f.path.startswith('ripd::session::parse_action'),
               param_sources={cc.path: {files_l[0]: 'create_checkpoint(files)'}}, no_propagate=is_sink,
